@@ -96,7 +96,7 @@ def _split(bound):
     return (bound[0], bound[1]) if isinstance(bound, (tuple, list)) else (bound, 3)
 
 
-def explore(variant: str, bound, max_execs: int = 60000):
+def explore(variant: str, bound, max_execs: int = 60000, root=None):
     """bound = (preemptions, deviations).  Two polling runner threads and two child timers make the space of FREE
     choices (who runs when the running thread blocks) too large to exhaust; besides the preemption bound, the total number
     of non-default choices (free or preemptive) is bounded by `deviations`, the default being the time-ordered schedule."""
@@ -106,5 +106,5 @@ def explore(variant: str, bound, max_execs: int = 60000):
     def on_exec(ch, out):
         results.append((list(ch.taken), out))
 
-    n, capped = e2.explore(lambda ch: run(variant, ch, pb), bound=dev, on_exec=on_exec, max_execs=max_execs)
+    n, capped = e2.explore(lambda ch: run(variant, ch, pb), bound=dev, on_exec=on_exec, max_execs=max_execs, root=root)
     return results, n, capped
